@@ -3,12 +3,20 @@ prefixed "T ", then "end".  For every pipe lifecycle (`init` … `cleanup`) it
  (1) decides the PROPERTY on the delivered stream with the abstract spec (`Spec.accept`: an
      interleaving of whole appends, per-thread order, nothing lost / duplicated), callbacks not
      overlapping, cleanup returned;
- (2) rebuilds an interleaving of MODEL steps that produces exactly the observed block sequence
-     (every step checked with `valid`) — the run of the real code must be a run of the model.
-Prints `ok …` or `reject <reason>`. -/
+ (2) checks the observed block sequence with `blockRule` (TboxModel/C10/BlockRule.lean) — sound by
+     theorem C10_observable_accepted: every complete model run passes it, so a rejected run is not a
+     run of the model — and then rebuilds a model interleaving with `schedule` (Sched.lean; certified
+     by C10_reconstruction_certified: its recorded steps ARE a model execution) that must deliver
+     exactly the observed blocks: the run of the real code is then a run of the model;
+ (3) M-class observables: live buffer allocations (peak, and at a quiescent `fillhold` point),
+     outcome of an append racing with cleanup (`late`, documented only).
+Prints `ok …`, `reject <reason>` (property level) or `reject M: <reason>` (model-internal observable: block
+partition, buffer count, failed reconstruction — a broken correspondence, not by itself a property violation). -/
 import TboxModel.Util
 import TboxModel.C10.Model
 import TboxModel.C10.Spec
+import TboxModel.C10.BlockRule
+import TboxModel.C10.Sched
 open Tbox.Util Tbox.C10
 
 /-! record format shared with props/C10/harness.cpp -/
@@ -62,77 +70,6 @@ def expectLine (a : TAcc) (want : String) (what : String) : TAcc :=
                  else { a with err := some s!"op#{a.nops} {what}: impl=[{l.take 120}] expected=[{want}]" }
   | [] => { a with err := some s!"op#{a.nops} {what}: impl=<missing> expected=[{want}]" }
 
-/-! ### model schedule reconstruction -/
-
-structure Sch where
-  s : State
-  n : Nat := 0
-  err : Option String := none
-  blockedSeen : Bool := false
-
-def Sch.step (a : Sch) (st : Step) : Sch :=
-  if a.err.isSome then a
-  else if valid a.s st then { a with s := Tbox.C10.step a.s st, n := a.n + 1 }
-  else { a with err := some s!"model step {repr st} is not enabled after {a.n} steps" }
-
-/-- run the back-end thread alone until `p` holds -/
-def Sch.backendUntil (a : Sch) (p : State → Bool) : Nat → Sch
-  | 0 => if a.err.isSome || p a.s then a else { a with err := some "back end makes no progress in the model" }
-  | fuel + 1 =>
-    if a.err.isSome || p a.s then a else
-    match beNext a.s with
-    | some st => (a.step st).backendUntil p fuel
-    | none => { a with err := some "back end has exited in the model" }
-
-/-- one whole `append` of thread `p` (the head of its program) -/
-def Sch.appendOne (a : Sch) (p : Nat) : Sch :=
-  let a := a.step (.acquire p)
-  let rec loop (a : Sch) : Nat → Sch
-    | 0 => a
-    | fuel + 1 =>
-      if a.err.isSome then a else
-      match a.s.owner with
-      | none => a
-      | some o =>
-        if o.remain.isEmpty then a else
-        let a := if a.s.curr.isNone then
-                   let a := a.step .pTake
-                   match a.s.owner with
-                   | some o' => if o'.blocked then
-                       ({ a with blockedSeen := true }.backendUntil (fun s => decide (0 < s.free)) (8 * (a.s.buffNum + 2))).step .pWake
-                     else a
-                   | none => a
-                 else a
-        loop (a.step .pWrite) fuel
-  let fuel := match a.s.owner with | some o => o.remain.length + 2 | none => 0
-  (loop a fuel).step .release
-
-/-- appends of length 0 at the head of thread p's program -/
-def Sch.flushEmpties (a : Sch) (p : Nat) : Nat → Sch
-  | 0 => a
-  | fuel + 1 =>
-    if a.err.isSome then a else
-    match a.s.prog p with
-    | [] :: _ => (a.appendOne p).flushEmpties p fuel
-    | _ => a
-
-def schedule (cfg : Cfg) (prog : Nat → List (List UInt8)) (order : List (Nat × List UInt8))
-    (bounds : List Nat) (maxEmpties : Nat) : Sch :=
-  let a0 : Sch := { s := init cfg prog }
-  let (a, _) := order.foldl (fun (acc : Sch × Nat) (pd : Nat × List UInt8) =>
-      let (a, w) := acc
-      let a := (a.flushEmpties pd.1 maxEmpties).appendOne pd.1
-      let w := w + pd.2.length
-      -- a block boundary here with a partial current buffer = the timed hand-over took it now
-      let a := if a.s.curr.isSome && bounds.contains w then
-                 a.backendUntil (fun s => s.curr.isNone) (8 * (a.s.buffNum + 3))
-               else a
-      (a, w)) (a0, 0)
-  let a := (List.range 8).foldl (fun a p => a.flushEmpties p maxEmpties) a
-  let a := a.step .cleanupSignal
-  let a := a.backendUntil (fun s => s.bpc == .exited) (8 * (a.s.buffNum + 4))
-  a.step .join
-
 /-! ### diagnostics for a rejected stream -/
 
 def diagnose (prog : Nat → List (List UInt8)) (stream : List UInt8) : String :=
@@ -173,8 +110,18 @@ def judgeCleanup (a : TAcc) (lv : Live) : TAcc :=
   | kl :: sl :: cl :: il :: rest =>
     match words kl, words sl with
     | ["K", ks], ["S", hx] =>
-      let realBp := il.startsWith "I bp=" && il != "I bp=0"
-      if !il.startsWith "I bp=" then { a with err := some s!"op#{a.nops} expected the I line, got [{il.take 60}]" } else
+      let kv (w : String) (key : String) : Option Nat := if w.startsWith key then (w.drop key.length).toString.toNat? else none
+      let (bp?, peak?) := match words il with
+        | ["I", w1, w2] => (kv w1 "bp=", kv w2 "peak=")
+        | _ => (none, none)
+      match bp?, peak? with
+      | none, _ | _, none => { a with err := some s!"op#{a.nops} expected the I line, got [{il.take 60}]" }
+      | some bp, some peak =>
+      let realBp := bp != 0
+      -- M-class: buffers alive at once.  buff_num_ <= max (C10_buffers_bounded); the back end decrements
+      -- buff_num_ before it deletes the buffer, so ONE more allocation may be alive transiently.
+      if peak > lv.cfg.maxN + 1 || peak < lv.cfg.minN then
+        { a with err := some s!"M: op#{a.nops} M-class: peak of live buffer allocations {peak} outside [{lv.cfg.minN}, buff_max_num {lv.cfg.maxN} + 1 in deletion] (C10_buffers_bounded)" } else
       let lens? : Option (List Nat) := if ks == "-" then some [] else (ks.splitOn ",").mapM (·.toNat?)
       match lens?, hexToBytes hx with
       | some lens, some arr =>
@@ -192,16 +139,21 @@ def judgeCleanup (a : TAcc) (lv : Live) : TAcc :=
           -- (2) the run must be a run of the model
           if lens.foldl (· + ·) 0 != stream.length then
             { a with err := some s!"op#{a.nops} block lengths do not add up to the stream" } else
-          if lens.any (· == 0) then { a with err := some s!"op#{a.nops} sink called with an EMPTY block" } else
+          if lens.any (· == 0) then { a with err := some s!"M: op#{a.nops} sink called with an EMPTY block" } else
           let blocks := splitBlocks stream lens
+          if !blockRule lv.cfg.size (order.map (·.2)) blocks then
+            let bnds := boundsOf (order.map (·.2))
+            let ends := (prefixSums lens).reverse
+            let bad := (List.zip lens ends).findIdx? (fun (n, e) => n == 0 || n > lv.cfg.size || (n != lv.cfg.size && !bnds.contains e))
+            let k := bad.getD 0
+            { a with err := some s!"M: op#{a.nops} block sequence is not a run of the model (blockRule, theorem C10_observable_accepted): block #{k} has {lens.getD k 0} bytes (buffer size {lv.cfg.size}) and ends at stream offset {ends.getD k 0}, which is not the end of an append — a partial block must end where an append ends" } else
           let maxE := lv.nrec + 1
           let sch := schedule lv.cfg prog order (prefixSums lens) maxE
           match sch.err with
-          | some e => { a with err := some s!"op#{a.nops} no model interleaving reproduces the run: {e}" }
+          | some e => { a with err := some s!"M: op#{a.nops} reconstruction failed on a run that satisfies the block rule (defect of the reconstruction, not shown of the implementation): {e}" }
           | none =>
             if sch.s.delivered != blocks then
-              let k := (List.zip sch.s.delivered blocks).takeWhile (fun (x, y) => x == y) |>.length
-              { a with err := some s!"op#{a.nops} block sequence is not a run of the model: block #{k} has {(blocks.getD k []).length} bytes, model (size {lv.cfg.size}) hands over {(sch.s.delivered.getD k []).length} there (a partial block must end where an append ends)" }
+              { a with err := some s!"M: op#{a.nops} reconstruction delivered other blocks than observed although the block rule holds (defect of the reconstruction, not shown of the implementation)" }
             else if !sch.s.joined || sch.s.late then { a with err := some "internal: model schedule did not end in a clean join" }
             else
               let nthreads := ((List.range 8).filter fun p => !(Spec.dropEmpties (prog p)).isEmpty).length
@@ -269,6 +221,42 @@ def stepOp (a : TAcc) (line : String) : TAcc :=
                     declared := lv.declared.setIfInBounds tid none, nrec := lv.nrec + toks.length }) lv
       expectLine { a with live := some lv' } "P run" "run"
     | none => bad
+  | ["fillhold", w1, w2] =>
+    -- one producer appends one record while the sink is held inside a callback; M-class: live buffers at that quiescent point
+    match inRange w1 7, inRange w2 20000, a.live with
+    | some tid, some len, some lv =>
+      if (lv.declared.getD tid none).isSome then bad else
+      let seq := lv.nextSeq.getD tid 0
+      let lv' := { lv with nextSeq := lv.nextSeq.setIfInBounds tid (seq + 1),
+                           prog := lv.prog.setIfInBounds tid (lv.prog.getD tid [] ++ [recordBytes tid seq len]), nrec := lv.nrec + 1 }
+      match a.tl with
+      | ml :: rest =>
+        match words ml with
+        | ["M", "held", w3, w4] =>
+          match (if w3.startsWith "live=" then (w3.drop 5).toString.toNat? else none), w4 with
+          | some live, b =>
+            let blocked := b == "blocked=1"
+            if live > lv.cfg.maxN then
+              { a with err := some s!"M: op#{a.nops} M-class: {live} buffers alive with the back end held in the sink, buff_max_num is {lv.cfg.maxN} (C10_buffers_bounded)" }
+            else if blocked && live != lv.cfg.maxN then
+              { a with err := some s!"M: op#{a.nops} M-class: producer blocked on back-pressure with {live} buffers alive, buff_max_num is {lv.cfg.maxN}: blocked before the limit" }
+            else expectLine { a with tl := rest, live := some lv', tags := a.tags ++ [if blocked then "fillhold-blocked" else "fillhold-free"] } "P fillhold" "fillhold"
+          | none, _ => { a with err := some s!"op#{a.nops} unparsable M held line [{ml.take 60}]" }
+        | _ => expectLine a "M held live=<n> blocked=<b>" "fillhold"
+      | [] => expectLine a "M held live=<n> blocked=<b>" "fillhold"
+    | _, _, _ => bad
+  | ["late", w1, w2, w3] =>
+    -- an append racing with cleanup(): outside the property statement; the outcome is documented (tag), never judged
+    match inRange w1 4096, inRange w2 64, inRange w3 200, a.live with
+    | some sz, some mx, some _, none =>
+      if sz < 1 || mx < 1 then bad else
+      match a.tl with
+      | ml :: rest =>
+        match words ml with
+        | ["M", "late", w] => { a with tl := rest, tags := a.tags ++ ["late:" ++ (w.drop 8).toString] }
+        | _ => expectLine a "M late outcome=<word>" "late"
+      | [] => expectLine a "M late outcome=<word>" "late"
+    | _, _, _, _ => bad
   | ["sleep", w1] =>
     match inRange w1 500 with
     | some _ => expectLine a "P sleep" "sleep"
